@@ -15,6 +15,7 @@ import (
 func main() {
 	ev.GuardFor("C02")
 	r := ev.Start("C02")
+	defer r.FinishOnPanic()
 	r.SetDeadline(ev.Pick(r, 50*time.Second, 1200*time.Second))
 	type cfg struct {
 		name string
@@ -28,7 +29,7 @@ func main() {
 	var parts []string
 	for _, c := range cfgs {
 		c := c
-		res := seqmc.Explore(r, seqmc.Config{Name: c.name, New: func() seqmc.Sys { return avlh.NewInt(c.p) }})
+		res := seqmc.Explore(r, seqmc.Config{Name: c.name, GoTest: avlh.GoTest(c.p, false), New: func() seqmc.Sys { return avlh.NewInt(c.p) }})
 		states += res.States
 		trans += res.Transitions
 		if res.MaxDepth > depth {
